@@ -141,7 +141,24 @@ func checkSeq(c SeqCase) *vk.Violation {
 	s := vk.UnHex(c.Septets)
 	var v *vk.Violation
 	pn := guard("seq", c, func() {
-		p := g.Pack(append([]byte{}, s...))
+		// the argument is a part cut out of a longer septet buffer (spare capacity behind it, as the splitter's
+		// and any caller's sub-slices have): what lies behind the part belongs to the caller and must stay
+		arg := make([]byte, len(s)+9)
+		copy(arg, s)
+		for i := len(s); i < len(arg); i++ {
+			arg[i] = 0x5f
+		}
+		p := g.Pack(arg[:len(s)])
+		for i := len(s); i < len(arg); i++ {
+			if arg[i] != 0x5f {
+				v = vk.Violf("Pack/writes-behind-its-argument", c, "Pack(buf[:%d]) changed buf[%d] from 5f to %02x: it wrote into the caller's buffer behind the septets it was given", len(s), i, arg[i])
+				return
+			}
+		}
+		if !bytes.Equal(arg[:len(s)], s) {
+			v = vk.Violf("Pack/changes-its-argument", c, "Pack changed the septets it was given: %x -> %x", s, arg[:len(s)])
+			return
+		}
 		vk.Retain("gsm7encoding.Pack", p)
 		want := ref.GSMPack(s)
 		if !bytes.Equal(p, want) {
@@ -500,6 +517,9 @@ func drive(tr transform.Transformer, src []byte, dstSize int) ([]byte, error) {
 	}
 	for iter := 0; iter < 64; iter++ {
 		dst := make([]byte, dstSize)
+		for i := range dst {
+			dst[i] = 0xA7 // a destination that was used before: nothing promises a transformer zeroed memory
+		}
 		nDst, _, err := tr.Transform(dst, src, true)
 		if nDst < 0 || nDst > len(dst) {
 			return nil, fmt.Errorf("Transform returned nDst=%d for a %d-octet destination", nDst, len(dst))
